@@ -707,6 +707,10 @@ class InspectFunction(object):
         return_sig = dds_hash_commut(
             [(_hash_key_body_sig, body_sig)] + _fis_to_siglist(method_fis)
         )
+        if not method_fis and arg_ctx.named_args:
+            # A class without methods in its source (a dataclass, a named tuple): the arguments of the constructor
+            # reach the signature through no method. P(1, 2) and P(3, 4) are not the same object.
+            return_sig = _build_return_sig(body_sig, arg_ctx, {}, [], {}, {})
         assert return_sig is not None
 
         return FunctionInteractions(
